@@ -119,7 +119,7 @@ def account(prop, tier, want_tags, expl, level, extra_note=''):
         base = re.sub(r'[^A-Za-z0-9]', '_', d['name'].split('#')[0])
         mbase = base + ('_m' + d['name'].split('#')[1] if '#' in d['name'] else '')
         step = d.get('step') or {}
-        A, B, G = step.get('A'), step.get('B'), step.get('G')
+        A, B, G, R = step.get('A'), step.get('B'), step.get('G'), step.get('R')
         loop_closed = bool(A and A['status'] == 'ok' and not A['failed'] and A.get('classes', {}).get('loop_invariant_step', 0) > 0
                            and G and G['status'] == 'ok' and not G['failed'])
         if loop_closed:
@@ -129,7 +129,7 @@ def account(prop, tier, want_tags, expl, level, extra_note=''):
             unclosed.append('%s: %s' % (d['name'], why[:160]))
         if d.get('nested_history'):
             nested_docs.append(d['name'])
-        for key, r in [('T', d.get('tables')), ('A', A), ('B', B), ('G', G)]:
+        for key, r in [('T', d.get('tables')), ('A', A), ('B', B), ('G', G), ('R', R)]:
             if not r:
                 continue
             if r['status'] != 'ok':
@@ -153,7 +153,7 @@ def account(prop, tier, want_tags, expl, level, extra_note=''):
                         ok += tok
             if n == 0:
                 continue
-            bounded = key == 'B' and not loop_closed
+            bounded = (key == 'B' and not loop_closed) or key == 'R'
             if bounded:
                 part.bounded_obligations += n
                 part.bounded_discharged += ok
@@ -183,6 +183,15 @@ def account(prop, tier, want_tags, expl, level, extra_note=''):
                     payload.update(row=row, col=col)
                     reproduced = True  # closed obligation over constants: the emitted row IS the failing input
                     text = 'emitted table row %s (second index %s) of %s differs from the set the Recommendation defines; re-emit with: uscxml-transform -tc -i %s' % (row, col, d['name'], d['path'])
+                elif key == 'R':
+                    exe, err = build_replay(d, mbase if os.path.exists(os.path.join(wd, mbase + '.facts.h')) else base, wd)
+                    if exe:
+                        q = subprocess.run([exe, 'bfs', '9', '12', 'skiphist'], capture_output=True, text=True, env=dict(os.environ, ASAN_OPTIONS='detect_leaks=0'), timeout=900, errors='replace')
+                        reproduced = q.returncode != 0
+                        text = (q.stdout + q.stderr).strip()[-600:]
+                        payload['native_cmd'] = exe + ' bfs 9 12 skiphist'
+                    else:
+                        text = 'cannot build native replay: ' + err
                 elif key == 'B':
                     nb = (d['info'].get('states', 8) + 7) // 8
                     m = re.search(r'USCXML_MAX_NR_STATES_BYTES\s+(\d+)', open(os.path.join(wd, base + '.c'), errors='replace').read())
